@@ -1,0 +1,41 @@
+//go:build verif
+
+// Contracts for heartbeats and version counters (read as text by /verif's govc; comment-only).
+
+package version
+
+//@ pure func (h Heartbeat) OlderThan(other Heartbeat) bool
+//@ pure func (h Heartbeat) YoungerThan(other Heartbeat) bool
+//@ pure func (c Counter) NewerThan(other Counter) bool
+//@ pure func (c Counter) OlderThan(other Counter) bool
+//@ pure func (c Counter) EqualTo(other Counter) bool
+
+//@ func (h Heartbeat) Increment() (r Heartbeat)
+//@   requires h.Version < 4294967295
+//@   ensures  r.OlderThan(h) && r.Generation == h.Generation && r.Version == h.Version+1
+//@ func (h Heartbeat) Restart() (r Heartbeat)
+//@   requires h.Generation < 4294967295
+//@   ensures  r.Generation == h.Generation+1 && r.Version == 0
+//@ func (c Counter) Increment() (r Counter)
+//@   requires c < 9223372036854775807
+//@   ensures  r == c+1 && r.NewerThan(c)
+
+//@ # "OlderThan" means ahead: strict lexicographic order on (Generation, Version)
+//@ lemma heartbeatStrictOrder(a Heartbeat, b Heartbeat, c Heartbeat)
+//@   ensures !a.OlderThan(a)
+//@   ensures a.OlderThan(b) && b.OlderThan(c) ==> a.OlderThan(c)
+//@   ensures a.OlderThan(b) || b.OlderThan(a) || a == b
+//@   ensures a.OlderThan(b) == b.YoungerThan(a)
+//@   ensures !(a.OlderThan(b) && b.OlderThan(a))
+//@ # a restarted node's state supersedes everything from its previous generation
+//@ lemma restartSupersedesGeneration(h Heartbeat, prev Heartbeat)
+//@   requires h.Generation < 4294967295 && prev.Generation == h.Generation
+//@   ensures  Heartbeat{Generation: h.Generation + 1, Version: 0}.OlderThan(prev)
+
+//@ # merge of two records of one member: keep the one that is ahead
+//@ spec func MaxHB(a Heartbeat, b Heartbeat) Heartbeat = __ite(b.OlderThan(a), b, a)
+//@ lemma maxHBSemilattice(a Heartbeat, b Heartbeat, c Heartbeat)
+//@   ensures MaxHB(a, a) == a
+//@   ensures MaxHB(a, b) == MaxHB(b, a)
+//@   ensures MaxHB(MaxHB(a, b), c) == MaxHB(a, MaxHB(b, c))
+//@   ensures !a.OlderThan(MaxHB(a, b)) && !b.OlderThan(MaxHB(a, b))
